@@ -14,6 +14,7 @@ Monitors (all on the real libvotca_tools under ASan/UBSan):
 import json
 import os
 import random
+import re
 import shutil
 import sys
 import xml.etree.ElementTree as ET
@@ -223,7 +224,7 @@ def run_votca_property(chk, work, n_random):
 
 def run(chk):
     shards = 16
-    per_calc = vf.tier_n(chk.tier, 40, 400)
+    per_calc = vf.tier_n(chk.tier, 40, 1000)
     n_trees = vf.tier_n(chk.tier, 2000, 50000)
     n_vp = vf.tier_n(chk.tier, 40, 400)
     vf.build_flavour("asan", ["votca_tools", "votca_property"])
@@ -257,8 +258,13 @@ def run(chk):
         for rec in res.records():
             if rec.get("t") == "driver_abort":
                 chk.sanitizer["reports"] += 1
-                key = vf.sanitizer_key(rec.get("stderr", "")) or \
-                    "crash/rc%s/c11-merge-driver" % rec.get("rc")
+                key = vf.sanitizer_key(rec.get("stderr", ""))
+                if not key:
+                    m = re.search(r"Assertion '([^']+)' failed",
+                                  rec.get("stderr", ""))
+                    key = ("assertion/libstdc++/" + m.group(1).replace(" ", "")
+                           + "/c11-merge-driver") if m else \
+                        "crash/rc%s/c11-merge-driver" % rec.get("rc")
                 chk.violation(key, rec, "the merge driver aborted (" + what + ")")
         if not chk.ingest(res, "c11 " + what):
             chk.sanitizer["reports"] += 0 if res.rc == 0 else 1
@@ -288,3 +294,69 @@ def run(chk):
         "descriptions of OptionsHandler; they are covered by the votca_property "
         "round trip only"]
     shutil.rmtree(work, ignore_errors=True)
+
+
+def replay(path):
+    """re-run one witness on the current tree: merge witnesses go through the
+    real ProcessUserInput again and are judged by the model; round-trip
+    witnesses are re-built from the recorded tree, printed by the real
+    operator<< via votca_property and re-parsed"""
+    w = json.load(open(path))
+    wit = w["witness"]
+    vf.build_flavour("asan", ["votca_tools", "votca_property"])
+    h = vf.build_harness("asan", "c11")
+    env = vf.lib_env("asan")
+    work = vf.scratch_dir("C11replay")
+    rc = 0
+    if "user_xml" in wit:
+        f = os.path.join(work, "user.xml")
+        open(f, "w", encoding="utf-8").write(wit["user_xml"])
+        man = os.path.join(work, "man.txt")
+        open(man, "w").write("replay\tP\t%s\t%s\n" % (wit["calc"], f))
+        res = run_retry([h, "--mode", "merge", "--defaults", XMLDIR + "/",
+                         "--manifest", man], env, 600)
+        rec = [r for r in res.records() if r.get("t") == "case"]
+        print(res.out.strip()[:3000])
+        if rec:
+            out = orc.Out()
+            fam = wit["family"]
+            c = orc.Case("replay", wit["calc"], fam, ET.fromstring(
+                wit["user_xml"].split("?>", 1)[-1]))
+            c.xml = wit["user_xml"]
+            if "injected_fault" in wit:
+                c.fault = (wit["injected_fault"]["kind"],
+                           wit["injected_fault"]["option"])
+            orc.judge(out, c, rec[0], orc.load_decl(XMLDIR, wit["calc"]), XMLDIR)
+            rc = 1 if out.violations else 0
+    elif "printed_xml" in wit or "input_xml" in wit:
+        # the tree as it should be (attributes/values properly escaped) is fed
+        # to votca_property, whose output must parse to the same tree
+        def build(t):
+            e = ET.Element(t["n"], dict(t.get("a", {})))
+            e.text = t.get("v", "")
+            for c in t.get("c", []):
+                e.append(build(c))
+            return e
+        f = os.path.join(work, "tree.xml")
+        if "tree" in wit:
+            ET.ElementTree(build(wit["tree"])).write(f, encoding="utf-8",
+                                                      xml_declaration=True)
+        else:
+            open(f, "w", encoding="utf-8").write(wit["input_xml"])
+        res = run_retry([votca_property_exe("asan"), "--file", f, "--format",
+                         "XML", "--level", "1"], env, 120)
+        print(res.out[:2000])
+        try:
+            d = et_same(ET.parse(f).getroot(), ET.fromstring(res.out))
+        except ET.ParseError as e:
+            d = "output is not well-formed XML: %s" % e
+        if d:
+            print("difference: " + d)
+            rc = 1
+    if rc:
+        print("VIOLATION property=C11 replay=%s key=%s (reproduced)" % (
+            path, w.get("key")))
+    else:
+        print("C11 replay: no violation on the current tree")
+    shutil.rmtree(work, ignore_errors=True)
+    return rc
